@@ -141,10 +141,12 @@ func keymap(id int) [][]byte {
 	return out
 }
 
-// valmaps: value class (1..3) -> bytes
+// valmaps: value class (1..3) -> bytes.  0..4: both sides of the 32-byte limit and tiny values; 5..7: lengths that
+// put the RLP of leaf / branch nodes at exactly 31, 32 and 33 bytes for the key shapes above (a node is embedded in
+// its parent iff its encoding is shorter than 32 bytes); >= 8: seeded random lengths 1..40
 func valmap(id int) [][]byte {
 	rp := func(b byte, n int) []byte { return bytes.Repeat([]byte{b}, n) }
-	switch id % 5 {
+	switch id {
 	case 0:
 		return [][]byte{nil, []byte("a"), rp(0x62, 32), rp(0x63, 100)}
 	case 1:
@@ -153,8 +155,24 @@ func valmap(id int) [][]byte {
 		return [][]byte{nil, []byte("x"), []byte("y"), []byte("z")}
 	case 3:
 		return [][]byte{nil, rp(0x61, 32), rp(0x62, 32), rp(0x63, 64)}
+	case 4:
+		return [][]byte{nil, rp(0x61, 20), rp(0x62, 7), rp(0x63, 56)}
+	case 5:
+		return [][]byte{nil, rp(0x61, 29), rp(0x62, 27), rp(0x63, 30)}
+	case 6:
+		return [][]byte{nil, rp(0x61, 28), rp(0x62, 26), rp(0x63, 25)}
+	case 7:
+		return [][]byte{nil, rp(0x61, 5), rp(0x62, 4), rp(0x63, 6)}
 	}
-	return [][]byte{nil, rp(0x61, 20), rp(0x62, 7), rp(0x63, 56)}
+	r := rand.New(rand.NewSource(int64(id)))
+	out := [][]byte{nil}
+	for i := 1; i <= 3; i++ {
+		v := make([]byte, 1+r.Intn(40))
+		r.Read(v)
+		v[0] |= 1 // never the single byte 0x00 twice
+		out = append(out, v)
+	}
+	return out
 }
 
 func keyIndex(name string) int { // "k3" -> 2
